@@ -643,7 +643,16 @@ def suite_confine(binf, tier, rng):
         ops = [{k: v for k, v in op.items() if v is not None} for op in ops]
         base = tempfile.mkdtemp(prefix="cf", dir=T.SCRATCH if os.path.isdir(T.SCRATCH) else None)
         try:
-          for variant, ops in (("full", ops), ("index-only", ops_idx)):
+          # a key with a long history (75 records in its bucket): read-only calls stay read-only whatever the bucket's length
+          ops_long = []
+          if key == keys[0]:
+              for i in range(75):
+                  ops_long.append({"op": "insert", "fl": fl, "key": K, "sri": sri, "size": i} if i % 9 != 8 else {"op": "remove", "fl": fl, "key": K})
+              ops_long += [{"op": "write", "fl": fl, "key": K, "data": D.hex(), "algo": "sha256"}]
+              ops_long += [{"op": "metadata", "fl": f2, "key": K} for f2 in fls] + [{"op": "read", "fl": f2, "key": K} for f2 in fls]
+              ops_long += [{"op": "ropen", "fl": fl, "r": 1, "key": K}, {"op": "rall", "r": 1}, {"op": "exists", "fl": fl, "sri": sri}, {"op": "list"},
+                           {"op": "copy", "fl": fl, "by": "key", "checked": True, "key": K, "to": "outL"}]
+          for variant, ops in (("full", ops), ("index-only", ops_idx)) + ((("long-history", ops_long),) if ops_long else ()):
             shutil.rmtree(base, ignore_errors=True); os.makedirs(base)
             cache, ext, cwd = os.path.join(base, "solo", "c"), os.path.join(base, "e"), os.path.join(base, "cwd")
             for d in (cache, ext, cwd): os.makedirs(d)
